@@ -73,7 +73,26 @@ impl<F: PrimeField + Send + Sync> PCtx<F> {
         let nlimbs = ((p.bits() as usize) + 63) / 64;
         let n_seeded = cx.tier.pick(2, 4);
         let mut rng = cx.rng(&format!("c10-alpha-{name}"));
-        let alpha_big = m.alphabet(n_seeded, &mut rng);
+        let mut alpha_big = m.alphabet(n_seeded, &mut rng);
+        // a few small integers and the published generator (a non-residue by contract), so that
+        // the square-root / residuosity operations see more than a couple of non-squares
+        for k in [3u64, 5, 7, 11] {
+            if !alpha_big.iter().any(|x| x.1 == bu(k)) {
+                alpha_big.push((k.to_string(), bu(k)));
+            }
+        }
+        if let Ok(g) = catch(|| {
+            let r = F::MULTIPLICATIVE_GENERATOR.to_repr();
+            if be { from_be(r.as_ref()) } else { from_le(r.as_ref()) }
+        }) {
+            if g < m.p {
+                for (n, v) in [("g", g.clone()), ("g^3", m.mul(&m.sqr(&g), &g)), ("-g", m.neg(&g))] {
+                    if !alpha_big.iter().any(|x| x.1 == v) {
+                        alpha_big.push((n.to_string(), v));
+                    }
+                }
+            }
+        }
         let mut pc = PCtx {
             name,
             m,
@@ -234,7 +253,7 @@ impl<F: PrimeField + Send + Sync> PCtx<F> {
     }
 }
 
-pub const PROBE_LIMIT_MS: u64 = 1500;
+pub const PROBE_LIMIT_MS: u64 = 1000;
 
 /// Harness self-test hook: `C10_SELFTEST_BREAK_MODEL=<op>` makes the *model* of the unary/binary
 /// operation `<op>` wrong (adds one), which must surface as `<field>:<op>:mismatch` for every
@@ -283,7 +302,7 @@ pub fn ref_iter_probe(field: &str, op: &str, out: &mut CaseOut) -> bool {
     use crate::probe::{run_child, Probe};
     // the confirmation re-execution of a probe that timed out runs on an otherwise idle machine
     let seen_fail = PROBE_RESULTS.lock().unwrap().iter().any(|r| r.0 == field && r.1 == op && !r.2);
-    let r = run_child(field, op, std::time::Duration::from_millis(if seen_fail { PROBE_LIMIT_MS / 3 } else { PROBE_LIMIT_MS }));
+    let r = run_child(field, op, std::time::Duration::from_millis(if seen_fail { PROBE_LIMIT_MS / 2 } else { PROBE_LIMIT_MS }));
     let what = if op.starts_with("sum") { "iter::Sum<&Self>" } else { "iter::Product<&Self>" };
     let d = json!({"expression": if op.starts_with("sum") { "[1, 2, 3].iter().sum::<F>()" } else { "[1, 2, 3].iter().product::<F>()" }, "probe": format!("{r:?}")});
     match r {
@@ -293,7 +312,7 @@ pub fn ref_iter_probe(field: &str, op: &str, out: &mut CaseOut) -> bool {
         }
         Probe::Timeout => {
             out.eval(&format!("{op}:probe-timeout"), true);
-            out.viol(Viol::new(format!("{field}:{op}:nontermination"), format!("{what}: summing/multiplying an iterator of references never returns (child process killed after 1.5 s; the same expression on a type with a correct implementation returns in microseconds)"), d));
+            out.viol(Viol::new(format!("{field}:{op}:nontermination"), format!("{what}: summing/multiplying an iterator of references never returns (child process killed 1 s after it announced the start of the evaluation; the same expression on a type with a correct implementation returns in microseconds)"), d));
             false
         }
         Probe::Crashed(s) => {
